@@ -385,6 +385,44 @@ func runC03(c *Ctx) {
 	}
 	// ---- I6: the element addressed is the one named by the key, the value stored is the one assigned
 	c.ruleI6("I6-key-and-value-reach-access")
+	// ... and the target the data context is given is the one the assignment was compiled with: the name of
+	// the variable, or name and key (literal string, variable, literal integer) of the element, read from
+	// the node's own fields -- a target rebuilt on the way (a variable key replaced by the value it holds
+	// now, through fields in which "" means "no key") addresses another element for some keys
+	if f := c.MustFn("I6-key-and-value-reach-access", "internal/base", "Assignment", "Evaluate"); f != nil {
+		x := c.Index(f)
+		recv := ssa.Value(f.Params[0])
+		ownMapVar := func(v ssa.Value) bool {
+			b, ok := x.isFieldLoad(v, "Assignment", "MapVar")
+			return ok && x.Origin(b) == recv
+		}
+		nSet := 0
+		eachInstr(f, func(in ssa.Instruction) {
+			call, ok := in.(*ssa.Call)
+			if !ok {
+				return
+			}
+			switch {
+			case calleeIs(call, pContext, "DataContext", "SetMapVarValue") && len(call.Call.Args) == 7:
+				nSet++
+				okT := true
+				for i, fld := range []string{"Name", "Strkey", "Varkey", "Intkey"} {
+					b, is := x.isFieldLoad(call.Call.Args[2+i], "MapVar", fld)
+					if !is || !ownMapVar(b) {
+						okT = false
+					}
+				}
+				c.Check("I6-key-and-value-reach-access", fmt.Sprintf("Assignment.Evaluate#element-target-as-compiled%d", nSet), okT, in.Pos(), "SetMapVarValue must be given Name, Strkey, Varkey and Intkey of the assignment's own MapVar node")
+			case calleeIs(call, pContext, "DataContext", "SetValue") && len(call.Call.Args) == 4:
+				nSet++
+				b, is := x.isFieldLoad(call.Call.Args[2], "Assignment", "Variable")
+				c.Check("I6-key-and-value-reach-access", fmt.Sprintf("Assignment.Evaluate#variable-target-as-compiled%d", nSet), is && x.Origin(b) == recv, in.Pos(), "SetValue must be given the assignment's own Variable")
+			case calleeIs(call, pBase, "MapVar", "Evaluate"):
+				c.Check("I6-key-and-value-reach-access", "Assignment.Evaluate#compound-reads-own-element", ownMapVar(call.Call.Args[0]), in.Pos(), "the current value of a compound assignment must be read through the assignment's own MapVar node")
+			}
+		})
+		c.Check("I6-key-and-value-reach-access", "Assignment.Evaluate#stores", nSet >= 2, f.Pos(), "Assignment.Evaluate stores through SetValue and SetMapVarValue (%d store call(s) found)", nSet)
+	}
 	c.ruleI7("I7-dotted-name-plumbing")
 	c.ruleI8("I8-field-by-name")
 	// ---- I5
